@@ -14,6 +14,8 @@ mod engine;
 mod findings;
 mod framework;
 mod gen_search;
+mod gen_tree;
+mod r2;
 mod probes;
 mod refint;
 mod rng;
